@@ -11,6 +11,7 @@ import hashlib
 import importlib
 import json
 import os
+import re
 import shutil
 import sys
 import time
@@ -93,6 +94,16 @@ def main() -> int:
             hits = common.hygiene_scan(common.dep_closure(list(plugin.COQ_TARGETS)))
             if hits:
                 broken.append({"what": "forbidden vernacular in the development", "hits": hits})
+            if args.tier == "thorough":
+                # independent re-check of the compiled property file and everything it depends on
+                r = common._run(["timeout", "1500", "coqchk", "-silent", "-o", "-Q", str(COQ), "Koreo",
+                                 f"Koreo.props.P_{prop}"], cwd=COQ, timeout=1600)
+                m = re.search(r"\* Axioms:(.*?)\n\s*\n", r.stdout, re.S)
+                coqchk_axioms = m.group(1).strip() if m else "?"
+                ctx.notes.append({"coqchk": {"rc": r.returncode, "axioms": coqchk_axioms}})
+                if r.returncode != 0 or coqchk_axioms != "<none>":
+                    broken.append({"what": f"coqchk -o on P_{prop}: rc={r.returncode}, axioms: {coqchk_axioms}",
+                                   "log": r.stdout[-2000:]})
             obligations, discharged = common.count_obligations(proof_files)
             if obligations != discharged:
                 broken.append({"what": f"{obligations} statements but {discharged} Qed/Defined in "
